@@ -336,9 +336,10 @@ def run(src, tier, seed):
     import C20
     r = res.rule('framing-independent-of-chunking', 'pipe-mode command framing is a function of the bytes, not of where read() boundaries fall (C20 rule)', floor=1)
     c20 = C20.run(src, tier, seed)
-    hit = [fd for fd in c20.findings if fd.key == 'chunk-dependent-framing']
+    hit = [fd for fd in c20.findings if fd.key == 'chunk-dependent-framing' or fd.key.startswith('framing-state-reset-per-chunk')]
     if hit:
-        res.bad(r, 'chunk-dependent-framing', hit[0].where, hit[0].msg)
+        for fd in hit:
+            res.bad(r, fd.key, fd.where, fd.msg)
     else:
         res.ok(r, 'interpPipe framing state lives at function scope and the loop body reads only the current byte')
 
